@@ -67,6 +67,10 @@ class IpModel:
         def field_of_param(pn):
             for name, lst in self.init_stores.items():
                 for e, path in lst:
+                    if e.c == ("param", pn):
+                        return name  # the field that holds the parameter itself, wherever it is assigned
+            for name, lst in self.init_stores.items():
+                for e, path in lst:
                     if any(s == ("param", pn) for s in subterms(e.c)):
                         return name
             return None
